@@ -24,6 +24,7 @@ structure MethodIn where
   path       : Str          -- config.path
   verbNum    : Nat          -- config.method enum number
   queryNames : List Str     -- query parameter names of query-annotated input fields, in field order
+  queryRequired : List Str := []  -- the query parameter names annotated `required: true`, in field order
 deriving Repr
 
 structure Route where
@@ -32,6 +33,9 @@ structure Route where
   pathVars   : List Str
   queryNames : List Str
   hasBody    : Bool
+  /-- query parameters the artefact marks REQUIRED (go-http: `QueryParamConfig.Required`, OpenAPI:
+  `required: true`); the clients and the TS server carry no such flag (always `[]`). -/
+  queryRequired : List Str := []
 deriving DecidableEq, Repr
 
 /-- `annotations.HTTPMethodToString` over the regenerated switch table. -/
@@ -98,7 +102,7 @@ def route (g : Generator) (m : MethodIn) : Route :=
   | .goHttp =>
     let v := verbOf m
     { verb := v, template := goHttpPath m, pathVars := pathVarsOf m, queryNames := m.queryNames,
-      hasBody := isBodyVerb v }
+      hasBody := isBodyVerb v, queryRequired := m.queryRequired }
   | .goClient | .tsClient | .tsServer =>
     let v := verbOf m
     { verb := v, template := clientPath m, pathVars := pathVarsOf m,
@@ -106,6 +110,6 @@ def route (g : Generator) (m : MethodIn) : Route :=
   | .openapi =>
     let v := toUpperStr (openapiVerbLower m)
     { verb := v, template := openapiPath m, pathVars := openapiPathVars m, queryNames := m.queryNames,
-      hasBody := isBodyVerb v }
+      hasBody := isBodyVerb v, queryRequired := m.queryRequired }
 
 end Sebuf
